@@ -192,6 +192,9 @@ class FunctionAnalysis:
             return None
         if isinstance(e, ast.Call):
             fn = ast.unparse(e.func)
+            if fn == "getattr" and len(e.args) >= 2 and isinstance(e.args[1], ast.Constant) and isinstance(e.args[1].value, str):
+                # getattr(obj, "name"[, default]) is obj.name
+                return self.origin(ast.Attribute(value=e.args[0], attr=e.args[1].value, ctx=ast.Load()))
             if fn in VIEW_FUNCS and e.args:
                 b = self.origin(e.args[0])
                 return b.via(f"{fn}(...)") if b else None
